@@ -958,8 +958,9 @@ def binderAtomsList : List Sexp → List Name
 end
 
 /-- Flags raised by one expansion step.  `sc` = every binder lexically in scope at the use (steel's
-`in_scope` plus the parameters of enclosing `(define (f x …) …)` forms, which steel does not record). -/
-def stepFlags (me : MEnv) (sc : List Name) (cs : MacroCase) (env : Env) : Flags :=
+`in_scope` plus the parameters of enclosing `(define (f x …) …)` forms, which steel does not record);
+`lexLits`: a literal of the macro used is spelled like such a parameter (steel matches it as the literal). -/
+def stepFlags (me : MEnv) (sc : List Name) (lexLits : Bool) (cs : MacroCase) (env : Env) : Flags :=
   let free := unresIds cs.body
   let shadowed := free.filter (fun x => sc.contains x)
   let lits := me.allLits
@@ -976,7 +977,7 @@ def stepFlags (me : MEnv) (sc : List Name) (cs : MacroCase) (env : Env) : Flags 
     | none => [])
   cs.sflags.or
   { a := shadowed.any (fun x => !lits.contains x) || binderArgIds.any (fun x => free.contains x),
-    c := shadowed.any (fun x => lits.contains x),
+    c := shadowed.any (fun x => lits.contains x) || lexLits,
     b := bound.any (fun x => (cs.intro.map Name.hash).contains x || env.b.any (fun kv => kv.1 == x))
           || binderGetsFree }
 
@@ -991,7 +992,7 @@ def Macro.expandInfo (m : Macro) (me : MEnv) (sc lex : List Name) (args : List S
       | .ok env =>
           match instantiate { scope := sc, globals := me.globals } (markEnv env) cs.body (Sexp.list args imp).depth with
           | .error e => .error e
-          | .ok r => .ok (r, stepFlags me (sc ++ lex) cs env)
+          | .ok r => .ok (r, stepFlags me (sc ++ lex) (m.lits.any (fun l => lex.contains l)) cs env)
 
 abbrev MRes (α : Type) := Except Err (α × List Name × Flags)
 
@@ -1429,23 +1430,49 @@ def expandS (fuel : Nat) (p : Prog) : Except Err (List Sexp) :=
   | .error e => .error e
   | .ok ms => runSForms fuel ms 1 (p.forms.filter (fun x => !isDefineSyntax x))
 
-/-! ## α-equivalence: canonical binder names -/
+/-! ## α-equivalence: canonical binder names
+
+The resolution of identifiers follows what steel does after expansion (compiler/passes/shadow.rs,
+`RenameShadowedVariables` with `rename_all`): every local binder is renamed apart and a reference is renamed
+to the innermost binder of its spelling — except that a reference still flagged `unresolved` (a template's
+free identifier) is left alone, i.e. refers to the global, unless some binder of that spelling in scope was
+itself `introduced_via_macro`.  Observed on the real engine and reproduced here without having located the
+cause: for the spelling `list` the flag is lost before that pass, so a template's `list` IS captured by a
+use-site binder (D8 (b)); every other built-in tried (car, cdr, cons, +, length, append, vector, map, …) and
+user globals are protected. -/
 
 /-- Canonical name of the binder introduced at level `l`. -/
 def canonName (l : Nat) : Name := { base := "%", hashes := l }
 
-def lookupLvl (env : List (Name × Nat)) (n : Name) : Option Nat :=
+structure CEntry where
+  name : Name
+  lvl : Nat
+  intro : Bool
+  deriving Repr, Inhabited
+
+def lookupLvl (env : List CEntry) (n : Name) : Option Nat :=
   match env with
   | [] => none
-  | (k, l) :: r => if k == n then some l else lookupLvl r n
+  | c :: r => if c.name == n then some c.lvl else lookupLvl r n
 
-/-- Resolve an identifier: the local binder of exactly that name and stamps, else a template-introduced
-top-level definition (that name, else without the latest stamp, …), else the global of that spelling. -/
-def canonRef (genv : List (Name × Nat)) (env : List (Name × Nat)) (n : Name) : Name :=
-  match lookupLvl env n with
+def lookupG (genv : List (Name × Nat)) (n : Name) : Option Nat :=
+  match genv with
+  | [] => none
+  | (k, l) :: r => if k == n then some l else lookupG r n
+
+/-- The `unresolved` flag of this identifier does not survive until the shadowing pass. -/
+def flagLost (n : Name) : Bool := n.base == "list" && n.hashes == 0
+
+/-- Resolve an identifier: the innermost local binder of exactly that name and stamps (skipped by a still
+unresolved template identifier when no binder of that spelling in scope was introduced by a macro), else a
+template-introduced top-level definition (that name, else without the latest stamp, …), else the global of
+that spelling. -/
+def canonRef (genv : List (Name × Nat)) (env : List CEntry) (n : Name) (m : Mark) : Name :=
+  let prot := m.unres && !flagLost n && !(env.any (fun c => c.name == n && c.intro))
+  match (if prot then none else lookupLvl env n) with
   | some l => canonName l
   | none =>
-      match (stripSeq n).findSome? (fun c => lookupLvl genv c) with
+      match (stripSeq n).findSome? (fun c => lookupG genv c) with
       | some g => { base := "%g", hashes := g }
       | none => n.strip
 
@@ -1459,19 +1486,19 @@ def stripDataList : List Sexp → List Sexp
   | x :: xs => stripData x :: stripDataList xs
 end
 
-def bindParams (env : List (Name × Nat)) (lvl : Nat) : List Sexp → List Sexp × List (Name × Nat) × Nat
+def bindParams (env : List CEntry) (lvl : Nat) : List Sexp → List Sexp × List CEntry × Nat
   | [] => ([], env, lvl)
-  | .id n _ :: rest =>
-      let r := bindParams ((n, lvl) :: env) (lvl + 1) rest
+  | .id n m :: rest =>
+      let r := bindParams ({ name := n, lvl := lvl, intro := m.intro } :: env) (lvl + 1) rest
       (.id (canonName lvl) Mark.plain :: r.1, r.2.1, r.2.2)
   | e :: rest =>
       let r := bindParams env lvl rest
       (e :: r.1, r.2.1, r.2.2)
 
 mutual
-def canon (genv : List (Name × Nat)) : Nat → List (Name × Nat) → Nat → Sexp → Sexp
+def canon (genv : List (Name × Nat)) : Nat → List CEntry → Nat → Sexp → Sexp
   | 0, _, _, e => e
-  | _ + 1, env, _, .id n _ => .id (canonRef genv env n) Mark.plain
+  | _ + 1, env, _, .id n m => .id (canonRef genv env n m) Mark.plain
   | f + 1, env, lvl, .list xs imp =>
       match xs with
       | .kw .quote :: rest => .list (.kw .quote :: stripDataList rest) imp
@@ -1480,9 +1507,9 @@ def canon (genv : List (Name × Nat)) : Nat → List (Name × Nat) → Nat → S
           | .list ps pimp =>
               let r := bindParams env lvl ps
               .list (.kw .lambda :: .list r.1 pimp :: canonList genv f r.2.1 r.2.2 body) imp
-          | .id n _ =>
+          | .id n m =>
               .list (.kw .lambda :: .id (canonName lvl) Mark.plain ::
-                     canonList genv f ((n, lvl) :: env) (lvl + 1) body) imp
+                     canonList genv f ({ name := n, lvl := lvl, intro := m.intro } :: env) (lvl + 1) body) imp
           | e => .list (.kw .lambda :: e :: canonList genv f env lvl body) imp
       | .kw .let_ :: .list pairs pimp :: body =>
           let inits := canonInits genv f env lvl pairs
@@ -1490,11 +1517,11 @@ def canon (genv : List (Name × Nat)) : Nat → List (Name × Nat) → Nat → S
           let r := bindParams env lvl binders
           let pairs' := (r.1.zip inits).map (fun bi => Sexp.list [bi.1, bi.2] false)
           .list (.kw .let_ :: .list pairs' pimp :: canonList genv f r.2.1 r.2.2 body) imp
-      | .kw .let_ :: .id name _ :: .list pairs pimp :: body =>
+      | .kw .let_ :: .id name nm' :: .list pairs pimp :: body =>
           -- named let: the inits are outside, the name and the binders scope over the body
           let inits := canonInits genv f env lvl pairs
           let binders := pairs.map (fun p => match p with | .list (x :: _) _ => x | e => e)
-          let r := bindParams ((name, lvl) :: env) (lvl + 1) binders
+          let r := bindParams ({ name := name, lvl := lvl, intro := nm'.intro } :: env) (lvl + 1) binders
           let pairs' := (r.1.zip inits).map (fun bi => Sexp.list [bi.1, bi.2] false)
           .list (.kw .let_ :: .id (canonName lvl) Mark.plain :: .list pairs' pimp ::
                  canonList genv f r.2.1 r.2.2 body) imp
@@ -1504,11 +1531,11 @@ def canon (genv : List (Name × Nat)) : Nat → List (Name × Nat) → Nat → S
                  canonList genv f r.2.1 r.2.2 body) imp
       | _ => .list (canonList genv f env lvl xs) imp
   | _ + 1, _, _, e => e
-def canonList (genv : List (Name × Nat)) : Nat → List (Name × Nat) → Nat → List Sexp → List Sexp
+def canonList (genv : List (Name × Nat)) : Nat → List CEntry → Nat → List Sexp → List Sexp
   | 0, _, _, xs => xs
   | _ + 1, _, _, [] => []
   | f + 1, env, lvl, x :: xs => canon genv f env lvl x :: canonList genv f env lvl xs
-def canonInits (genv : List (Name × Nat)) : Nat → List (Name × Nat) → Nat → List Sexp → List Sexp
+def canonInits (genv : List (Name × Nat)) : Nat → List CEntry → Nat → List Sexp → List Sexp
   | 0, _, _, _ => []
   | _ + 1, _, _, [] => []
   | f + 1, env, lvl, p :: ps =>
